@@ -144,7 +144,9 @@ def gen_plot(tier, seed):
                     if f[3] and r.random() < 0.35:
                         l = r.choice(f[3]) if r.random() < 0.9 else r.choice(all_ls)
                         key = l if r.random() < 0.5 else NAME[l]
-                        ncol = LEN[l] + r.choice([0, 0, 1, 2]) if r.random() < 0.9 else LEN[l] - 1
+                        # colour lists shorter than the dimension (also by more than one) are refused, not recycled
+                        ncol = LEN[l] + r.choice([0, 0, 1, 2]) if r.random() < 0.75 else r.randint(1, max(1, LEN[l] - 1))
+                        stats["short_colour_lists"] = stats.get("short_colour_lists", 0) + int(ncol < LEN[l])
                         lines.append(f"k_split {f[0]} {key} {ncol}")
                         stats["splits"] += 1
                 lines.append("k_sankey")
